@@ -370,8 +370,8 @@ theorem lock_exact (frc fmode fuid euid : Int) (hm : 0 ≤ fmode) :
   omega
 
 /-- … and `lock_create` runs that check on every path on which the lock file was opened. -/
-theorem lock_checked (u c f ofd ur ue crc fd ls lp : Int) (hfd : 0 ≤ fd) (hc : c ≠ 0) (hclose : ofd < 0 ∨ 0 ≤ crc) :
-    (lock_create u c f ofd ur ue crc fd ls lp).calls "_lock_stat" = true := by
+theorem lock_checked (u c f ofd ur ue crc fd ls lp st : Int) (hfd : 0 ≤ fd) (hc : c ≠ 0) (hclose : ofd < 0 ∨ 0 ≤ crc) :
+    (lock_create u c f ofd ur ue crc fd ls lp st).calls "_lock_stat" = true := by
   unfold lock_create
   simp only [calls_ite]
   simp only [KOut.calls, List.any_cons, List.any_nil, String.reduceBEq, Bool.or_false, Bool.false_or, Bool.or_true,
